@@ -225,6 +225,29 @@ pub fn run(ctx: &Ctx) -> (Outcome, String, Option<bool>) {
     });
     out.absorb(o);
 
+    // (b') very long programs: more instructions than fit a u16 counter
+    let longs: Vec<(u32, u8)> = vec![(65534, 0), (65535, 0), (65536, 0), (65537, 0), (70000, 0), (65535, 1), (65536, 1), (65536, 2), (65536, 3), (100000, 1), (131072, 2)];
+    let o = run_enumeration(ctx, "long-programs", longs, |(n, tail), st, _| {
+        let mut b = vec![0x09u8; *n as usize];
+        match tail {
+            1 => b.extend_from_slice(&[0xf2, 0x01, 0x01]), // pushic 1
+            2 => b.push(0x01),                             // invalid opcode at the very end
+            3 => b.extend_from_slice(&[0xb0, 0x00]),       // truncated loop at the very end
+            _ => {}
+        }
+        check_bytes(&b, st, false)?;
+        // hash / weight agree between the two views even for long programs
+        if let Ok(c) = melvm::Covenant::from_bytes(&b) {
+            let from_ops = melvm::Covenant::from_ops(&c.to_ops());
+            if from_ops.to_bytes().as_ref() != b.as_slice() || from_ops.weight() != c.weight() || c.weight() != melvm::covenant_weight_from_bytes(&b) {
+                viol!("long-program-views-differ", "a program of {} instructions differs between its byte and instruction views", c.to_ops().len());
+            }
+        }
+        st.class("long-program");
+        Ok(())
+    });
+    out.absorb(o);
+
     // (c) instruction lists with representable operands
     let cases = ctx.scale(40_000, 400_000);
     let o = run_sharded(
@@ -268,7 +291,7 @@ pub fn run(ctx: &Ctx) -> (Outcome, String, Option<bool>) {
     );
     out.absorb(o);
 
-    let rule = "Enumerated: every byte string of length 0-3 (16 843 009 strings) and every opcode byte followed by 0-40 operand bytes of 5 patterns, pushb/pushic with every length byte x leading byte x short/exact/long payload. Generated: instruction lists with operands over their full range (ops->bytes->ops), random strings to 4 KiB and mutated valid encodings (bytes->ops->bytes). Oracle: round trips, agreement with RefVM's independent decoder/encoder on accept/reject and instruction list, hash/weight/covenant_weight_from_bytes/debug_execute equal between the from_bytes and from_ops views. Non-trivial = decodes to >=1 instruction carrying an operand, or is rejected after >=1 instruction decoded; distinct by bytes.".to_string();
+    let rule = "Enumerated: every byte string of length 0-3 (16 843 009 strings) and every opcode byte followed by 0-40 operand bytes of 5 patterns, pushb/pushic with every length byte x leading byte x short/exact/long payload. Programs of 65 534 to 131 072 one-byte instructions with valid, invalid and truncated tails. Generated: instruction lists with operands over their full range (ops->bytes->ops), random strings to 4 KiB and mutated valid encodings (bytes->ops->bytes). Oracle: round trips, agreement with RefVM's independent decoder/encoder on accept/reject and instruction list, hash/weight/covenant_weight_from_bytes/debug_execute equal between the from_bytes and from_ops views. Non-trivial = decodes to >=1 instruction carrying an operand, or is rejected after >=1 instruction decoded; distinct by bytes.".to_string();
     (out, rule, Some(true))
 }
 
